@@ -58,13 +58,16 @@ fn quiet<R>(f: impl FnOnce() -> R) -> R {
 ///  sys_sin   F_i = a_i x_i + sum_j b_ij sin x_j + k_i        (real)
 ///  sys_sq    F_i = a_i z_i + sum_j b_ij z_j^2 + k_i
 ///  sys_lin   F_i = a_i (z_i - r_i) + sum_j b_ij (z_j - r_j)
-pub struct Fam { name: String, n: usize, cx: bool, s: Cmplx, r: Vec<Cmplx>, a: Vec<Cmplx>, b: Vec<Cmplx>, k: Vec<Cmplx> }
+///  perm      (systems) the equations are listed in the order perm: output row i is equation perm[i] (same root, same Newton
+///            iterates in exact arithmetic; the Jacobian is then NOT diagonally dominant as listed: the linear solve must pivot)
+pub struct Fam { name: String, n: usize, cx: bool, s: Cmplx, r: Vec<Cmplx>, a: Vec<Cmplx>, b: Vec<Cmplx>, k: Vec<Cmplx>, perm: Vec<usize> }
 impl Fam {
     fn from(case: &Value) -> Fam {
         let v = gets(case, "variant");
         let g = |key: &str| case.get(key).map(cvec_from).unwrap_or_default();
         Fam { name: gets(case, "fam").to_string(), n: getu(case, "n"), cx: matches!(v, "cx" | "cvec" | "cvecj"),
-              s: g("s").first().copied().unwrap_or(c(1.0, 0.0)), r: g("r"), a: g("a"), b: g("b"), k: g("k") }
+              s: g("s").first().copied().unwrap_or(c(1.0, 0.0)), r: g("r"), a: g("a"), b: g("b"), k: g("k"),
+              perm: case.get("perm").map(|p| ivec(p).iter().map(|x| *x as usize).collect()).unwrap_or_default() }
     }
     fn scalar(&self, z: Cmplx) -> Cmplx {
         match self.name.as_str() {
@@ -81,9 +84,13 @@ impl Fam {
             other => { eprintln!("TOOL-ERROR unknown scalar family {}", other); std::process::exit(2) }
         }
     }
+    fn rows<X: Clone>(&self, v: Vec<X>, w: usize) -> Vec<X> {
+        if self.perm.len() * w != v.len() { return v; }
+        self.perm.iter().flat_map(|p| v[p * w..(p + 1) * w].to_vec()).collect()
+    }
     fn system(&self, z: &[Cmplx]) -> Vec<Cmplx> {
         let n = self.n;
-        (0..n).map(|i| match self.name.as_str() {
+        let v: Vec<Cmplx> = (0..n).map(|i| match self.name.as_str() {
             "sys_sin" => { let mut s = self.a[i] * z[i]; for j in 0..n { s = s + self.b[i * n + j] * csin(z[j]); } s + self.k[i] }
             "sys_sq" => { let mut s = self.a[i] * z[i]; for j in 0..n { s = s + self.b[i * n + j] * z[j] * z[j]; } s + self.k[i] }
             "sys_lin" => { let mut s = self.a[i] * (z[i] - self.r[i]); for j in 0..n { s = s + self.b[i * n + j] * (z[j] - self.r[j]); } s }
@@ -92,7 +99,8 @@ impl Fam {
             "nan" => c(NAN, if self.cx { NAN } else { 0.0 }),
             "const" => self.k[i],
             other => { eprintln!("TOOL-ERROR unknown system family {}", other); std::process::exit(2) }
-        }).collect()
+        }).collect();
+        self.rows(v, 1)
     }
     /// exact Jacobian (row-major n x n) for solve_jacobian
     fn jac(&self, z: &[Cmplx]) -> Vec<Cmplx> {
@@ -109,7 +117,7 @@ impl Fam {
                 _ => c(0.0, 0.0),
             };
         } }
-        m
+        self.rows(m, n)
     }
 }
 
@@ -295,6 +303,53 @@ fn system_basin(rng: &mut StdRng, cx: bool, n: usize) -> (Value, Vec<Cmplx>, f64
     (json!({"fam": if sin { "sys_sin" } else { "sys_sq" }, "a": jcvec(&a), "b": jcvec(&b), "k": jcvec(&k)}), root, rad)
 }
 
+/// Systems whose Jacobians have exact structural zeros in a prescribed arrangement (the dense Gaussian elimination
+/// behind the system variants must eliminate PAST a zero multiplier / search pivots PAST a zero entry), with coupling
+/// close to the dominance limit: per row sup|g'| * sum_j |b_ij| = rho * |a_i|, rho in {0.95, 0.9, 0.8}, scaled so that the
+/// dominance gap is still >= 1.05 on the ball.  Same function forms as system_basin (sys_sin / sys_sq), same basin theorem.
+///   cycf / cycb   row i couples to i+1 / i-1 (mod n)          lower / upper   row i couples to (some) j < i / j > i
+///   arrow         row 0 couples to all, row i > 0 to 0         block           2-blocks, dense inside, chained to the next block
+///   sparse        1-2 random off-diagonals per row
+fn rand_perm(rng: &mut StdRng, n: usize) -> Vec<usize> { let mut p: Vec<usize> = (0..n).collect(); for i in (1..n).rev() { p.swap(i, rng.gen_range(0..=i)); } if n >= 2 && p.iter().enumerate().all(|(i, x)| i == *x) { p.swap(0, n - 1); } p }
+const PATTERNS: [&str; 7] = ["cycf", "cycb", "lower", "upper", "arrow", "block", "sparse"];
+fn pattern(rng: &mut StdRng, pat: &str, n: usize, i: usize) -> Vec<usize> {
+    let mut s: Vec<usize> = match pat {
+        "cycf" => vec![(i + 1) % n],
+        "cycb" => vec![(i + n - 1) % n],
+        "lower" => (0..i).filter(|_| rng.gen_bool(0.7)).collect(),
+        "upper" => (i + 1..n).filter(|_| rng.gen_bool(0.7)).collect(),
+        "arrow" => if i == 0 { (1..n).collect() } else { vec![0] },
+        "block" => { let b0 = i - i % 2; let mut v: Vec<usize> = (b0..(b0 + 2).min(n)).filter(|j| *j != i).collect(); if i % 2 == 0 && b0 + 2 < n { v.push(b0 + 2); } if i % 2 == 1 && b0 >= 2 && rng.gen_bool(0.5) { v.push(b0 - 1); } v }
+        _ => { let k = rng.gen_range(1..=2usize); let mut v = vec![]; while v.len() < k { let j = rng.gen_range(0..n); if j != i && !v.contains(&j) { v.push(j); } } v }
+    };
+    if matches!(pat, "lower") && i > 0 && s.is_empty() { s.push(rng.gen_range(0..i)); }
+    if matches!(pat, "upper") && i + 1 < n && s.is_empty() { s.push(rng.gen_range(i + 1..n)); }
+    s
+}
+fn system_structured(rng: &mut StdRng, cx: bool, n: usize, pat: &str) -> (Value, Vec<Cmplx>, f64) {
+    let sin = !cx && rng.gen_bool(0.5);
+    // sine: |g'| <= 1 everywhere, roots near 0 (cos >= 0.95); squares: roots of modulus 0.9..1, ball radius <= 0.04, |g'| = 2|z| <= 2.1
+    let (gsup, rmax): (f64, f64) = if sin { (1.0, 1.0) } else { (2.1, 0.04) };
+    let root: Vec<Cmplx> = (0..n).map(|_| if sin { c(unif(rng, -0.3, 0.3), 0.0) } else { unit_dir(rng, cx) * unif(rng, 0.9, 1.0) }).collect();
+    let rho = match rng.gen_range(0..10) { 0 | 1 => 0.8, 2 | 3 => 0.9, _ => 0.95 };
+    let mut b = vec![c(0.0, 0.0); n * n]; let mut a = vec![c(0.0, 0.0); n];
+    for i in 0..n {
+        let s = pattern(rng, pat, n, i);
+        if s.is_empty() { a[i] = unit_dir(rng, cx) * unif(rng, 1.05, 4.0); continue; }
+        let total = 1.06 * rho / (1.0 - rho) * unif(rng, 1.0, 1.3) / gsup;           // sum_j |b_ij|
+        let w: Vec<f64> = s.iter().map(|_| unif(rng, 0.5, 1.0)).collect(); let ws: f64 = w.iter().sum();
+        for (q, j) in s.iter().enumerate() { b[i * n + *j] = unit_dir(rng, cx) * (total * w[q] / ws); }
+        a[i] = unit_dir(rng, cx) * (gsup * total / rho);
+    }
+    let rows: Vec<f64> = (0..n).map(|i| (0..n).map(|j| b[i * n + j].abs()).sum()).collect();
+    let gap = (0..n).map(|i| a[i].abs() - gsup * rows[i]).fold(f64::INFINITY, f64::min);
+    let lip = (if sin { 1.0 } else { 2.0 }) * rows.iter().cloned().fold(0.0, f64::max);
+    let rad = 0.999 * if lip > 0.0 { rmax.min(gap / (2.0 * lip)) } else { rmax };
+    let g = |z: Cmplx| if sin { csin(z) } else { z * z };
+    let k: Vec<Cmplx> = (0..n).map(|i| { let mut s = a[i] * root[i]; for j in 0..n { s = s + b[i * n + j] * g(root[j]); } c(-s.real, -s.imag) }).collect();
+    (json!({"fam": if sin { "sys_sin" } else { "sys_sq" }, "pat": pat, "rho": jhex(rho), "gap": jhex(gap), "a": jcvec(&a), "b": jcvec(&b), "k": jcvec(&k)}), root, rad)
+}
+
 pub fn gen(tier: &str, seed: u64, out: &mut Out) {
     let quick = tier == "quick";
     let mut rng = rng(seed, 17);
@@ -315,8 +370,24 @@ pub fn gen(tier: &str, seed: u64, out: &mut Out) {
         k["variant"] = json!(v); k["n"] = json!(n); k["tol"] = jhex(pick_tol(&mut rng)); k["delta"] = jhex(pick_delta(&mut rng)); k["limit"] = json!(limit);
         k["guess"] = jcvec(&guess); k["root"] = jcvec(&root); k["basin"] = json!(true); k["rad"] = jhex(rad);
         k["expect"] = json!(if limit >= NEED { "ok" } else { "any" });
+        if sys && n >= 2 && rng.gen_bool(0.25) { k["perm"] = json!(rand_perm(&mut rng, n)); }
         push(out, k);
     } }
+    // (a2) systems with structural zeros in the Jacobian, every arrangement x n = 3..6 x the four system variants,
+    //      coupling near the dominance limit; mostly with limits from NEED on, where success is required
+    let reps = if quick { 2 } else { 8 };
+    for _ in 0..reps { for v in ["vec", "vecj", "cvec", "cvecj"] { for pat in PATTERNS { for n in 3..=6usize {
+        let cx = matches!(v, "cvec" | "cvecj");
+        let (mut k, root, rad) = system_structured(&mut rng, cx, n, pat);
+        let u = if rng.gen_bool(0.15) { 0.999 } else { unif(&mut rng, 0.0, 0.999) };
+        let guess: Vec<Cmplx> = root.iter().map(|z| *z + unit_dir(&mut rng, cx) * (u * rad * unif(&mut rng, 0.0, 1.0))).collect();
+        let limit = if rng.gen_bool(0.75) { rng.gen_range(NEED..=30) } else { rng.gen_range(2..NEED) };
+        k["variant"] = json!(v); k["n"] = json!(n); k["tol"] = jhex(pick_tol(&mut rng)); k["delta"] = jhex(pick_delta(&mut rng)); k["limit"] = json!(limit);
+        k["guess"] = jcvec(&guess); k["root"] = jcvec(&root); k["basin"] = json!(true); k["rad"] = jhex(rad);
+        k["expect"] = json!(if limit >= NEED { "ok" } else { "any" });
+        if rng.gen_bool(0.5) { k["perm"] = json!(rand_perm(&mut rng, n)); }
+        push(out, k);
+    } } } }
     // (b) termination / failure half: root-free, non-differentiable, NaN-producing, constant functions (failure is
     //     provable: the stopping criterion can never be met), plus a double root and a divergent iteration (protocol only)
     let reps = if quick { 24 } else { 240 };
